@@ -161,7 +161,21 @@ def r2_conversions(ctx):
                     ctx.ob('C19.R2', 'field|%s|%s' % (fn, fname), fname in src, b.loc(bb, st), 'schema field %s is filled from input field(s) %s' % (fname, sorted(src)))
     # AnnotationKind parse / Display
     AP = 'pavexc_attr_parser'
-    parse = ctx.need('C19.R2', 'AnnotationKind::parse', ctx.fb.body(AP, 'pavexc_attr_parser::AnnotationKind::parse'))
+    parse = ctx.fb.body(AP, 'pavexc_attr_parser::AnnotationKind::parse')
+    if parse is None:
+        # whatever it is called and whatever it returns (`Result<Self, ()>`, `Option<Self>`): the function of the crate, outside Display, that
+        # builds the most AnnotationKind variants from string comparisons
+        best = (0, None)
+        for x in ctx.fb.bodies(AP):
+            if x.is_promoted or x.nid != x.nroot or x.nid.endswith('::fmt'):
+                continue
+            vs = {st['rv']['var'] for _, _, st in x.all_assigns() if st['rv']['k'] == 'agg' and st['rv'].get('ak') == 'adt'
+                  and strip_generics(st['rv'].get('adt', '')) == 'pavexc_attr_parser::AnnotationKind'}
+            has_eq = any((callee(t) or '').endswith('::eq') for _, t in x.calls())
+            if has_eq and len(vs) > best[0]:
+                best = (len(vs), x)
+        parse = best[1] if best[0] >= 5 else None
+    parse = ctx.need('C19.R2', 'AnnotationKind::parse', parse)
     disp = [b for b in ctx.fb.bodies(AP) if not b.is_promoted and b.nid == '<pavexc_attr_parser::AnnotationKind as core::fmt::Display>::fmt']
     s2v, v2s = {}, {}
     if parse is not None:
